@@ -384,3 +384,8 @@ def run(ctx):
         store_wrapper_table(r, ctx, rs)
         delete_map_range(r, ctx, rs)
 
+    # the in-memory store: a stopping agent's state is handed to the next instance or parked whole - never an emptied one (C13.R5)
+    from rules import C13 as _C13
+    ctx.borrow(_C13, {"C13.R5": ("C05.R11", "in-memory store: the state of a stopping agent is handed over or parked as it is, on every outcome of the hand-off (C13.R5)")})
+
+
